@@ -202,7 +202,8 @@ def write_wkt(
         The path where the geometry should be written to.
     """
     with open(path, 'w') as f:
-        f.write(shapely.to_wkt(_to_multipolygon(dataset)))
+        # The default rounding_precision is 6 decimal places, which moves vertices
+        f.write(shapely.to_wkt(_to_multipolygon(dataset), rounding_precision=-1))
 
 
 def write_wkb(
